@@ -47,6 +47,14 @@ inductive Op
   | setLocation (loc : Nat) (dh : Option Handle)
   /-- SetContextState with the proposed states (a proposal is a complete context state, as sent on the wire) -/
   | setContextState (ps : List CState)
+  /-- the commit of any other transaction (metric, alert, component, …) between two context operations: only the
+  MdibVersion moves.  Both context operations read the version they write into Binding/UnbindingMdibVersion
+  (`mgr.new_mdib_version = mdib_version + 1`, taken when the transaction object is created) and commit inside one
+  critical section of `_transaction_manager` (`with self._tr_lock, self.mdib_lock`), so another commit can only
+  happen before or after `step`, never between its read of `ver` and its commit: that is what `st.ver + 1` in
+  `setContextState` / `setLocation` says.  The harness forces this interleaving on the real code (an open metric
+  transaction while the operation starts) and compares. -/
+  | otherCommit
 deriving Repr, Inhabited
 
 /-! ## disassociation of the states of one descriptor
@@ -186,6 +194,7 @@ def setLocation (env : Env) (st : St) (loc : Nat) (dh : Option Handle) : St × R
 def step (env : Env) (st : St) : Op → St × Res
   | .setLocation loc dh => setLocation env st loc dh
   | .setContextState ps => setContextState env st ps
+  | .otherCommit => ({ st with ver := st.ver + 1 }, .ok)
 
 def run (env : Env) (st : St) (ops : List Op) : St := ops.foldl (fun s o => (step env s o).1) st
 
